@@ -74,10 +74,12 @@ def unit_c07_sweep():
                         for bad in [None] + list(range(1, n + 1)):
                             for u in [None] + list(range(0, n + 2)):
                                 yield (h, n, bad, u)
+                                if bad is not None: yield (h, n, -bad, u)        # the bad row is a blank line (a row without items) instead of a bad cell
             cli_count = [0]
             def check(c):
                 h, n, bad, u = c
-                rows = [["x" if k == bad else str(k), "r%d" % k] for k in range(1, n + 1)]
+                blank = bad is not None and bad < 0; bad = abs(bad) if bad is not None else None
+                rows = [([] if blank and k == bad else ["x" if k == bad else str(k), "r%d" % k]) for k in range(1, n + 1)]
                 text = "".join(",".join(r) + "\n" for r in rows)
                 reported = bad is not None and bad > h and (u is None or bad <= u)
                 # row-reading API
@@ -108,8 +110,8 @@ def unit_c07_sweep():
                         if rc != (1 if reported else 0): return {"expected": "--until -1 behaves like no limit", "observed": "exit %r" % rc}
                 return None
             return [sweep("C07/sweep/header and limit window through rows(), validate() and --until", cases(), check, "bounded",
-                          "header 0-3 x tables of 0-4 rows x a single bad row at every position (or none) x limit in {none, 0..rows+1} x both APIs; command line --until on every 3rd case and every --until 0 case (all in thorough)",
-                          describe=lambda c: {"header": c[0], "rows": c[1], "bad_row": c[2], "validate_until": c[3]}, function="validio.rows / validio.validate / applications.main", unit="C07.sweep")]
+                          "header 0-3 x tables of 0-4 rows x a single bad row (a bad cell, or a blank line) at every position (or none) x limit in {none, 0..rows+1} x both APIs; command line --until on every 3rd case and every --until 0 case (all in thorough)",
+                          describe=lambda c: {"header": c[0], "rows": c[1], "bad_row": abs(c[2]) if c[2] else None, "bad_row_is_a_blank_line": bool(c[2] and c[2] < 0), "validate_until": c[3]}, function="validio.rows / validio.validate / applications.main", unit="C07.sweep")]
         finally:
             shutil.rmtree(tmp, ignore_errors=True)
     return NativeUnit("C07.sweep", "bounded sweep of the header/limit window through both APIs and the command line", ["C07"], run, kind="bounded")
